@@ -107,3 +107,22 @@ package annotation
 //@   ensures forall c int :: 0 <= c && c < len(old(*elems)) && ptEq(pt, old((*elems)[c].Pos)) && (forall k int :: 0 <= k && k < c ==> !ptEq(pt, old((*elems)[k].Pos))) ==> changed && deleted != nil && ptEq(deleted.Pos, pt) && deleted.Kind == old((*elems)[c].Kind) && len(*elems) == len(old(*elems)) - 1
 //@   ensures forall c int :: 0 <= c && c < len(old(*elems)) && ptEq(pt, old((*elems)[c].Pos)) && (forall k int :: 0 <= k && k < c ==> !ptEq(pt, old((*elems)[k].Pos))) ==> (forall k int :: 0 <= k && k < len(*elems) && k != c ==> sameNR((*elems)[k], old((*elems)[k])))
 //@   ensures forall c int :: 0 <= c && c < len(old(*elems)) && ptEq(pt, old((*elems)[c].Pos)) && (forall k int :: 0 <= k && k < c ==> !ptEq(pt, old((*elems)[k].Pos))) ==> (c < len(*elems) ==> sameNR((*elems)[c], old((*elems)[len(*elems) - 1])))
+
+// modifyTagElements: the swap-delete of the elements noted for erasure never indexes outside the tag's
+// element list, whatever list the store returns and whatever the delta holds (C20; the indices in toDel
+// are strictly increasing positions of tagElems and are removed from the highest down).
+//@ func Data.modifyTagElements
+//@   prop C20 C13
+//@   requires d != nil
+//@   safety_off
+//@   calls_havoc
+//@   modifies *
+//@   invariant loop 2: len(toDel) <= rangeindex + 1 && rangeindex < len(tagElems)
+//@   invariant loop 2: incrA(toDel)
+//@   invariant loop 2: incrB(toDel, rangeindex + 1)
+//@   ghost n0 int = 0
+//@   ghostset at "if len(toDel) != 0 {": n0 = len(tagElems)
+//@   assert at "if len(toDel) != 0 {": incrB(toDel, len(tagElems)) && len(toDel) <= len(tagElems)
+//@   invariant loop 3: -1 <= i && i < len(toDel) && len(tagElems) == n0 - (len(toDel) - 1 - i) && incrB(toDel, n0) && len(toDel) <= n0
+//@   assert at "tagElems[d] = tagElems[len(tagElems)-1]": 0 <= d && d < len(tagElems)
+//@   assert at "tagElems[len(tagElems)-1] = ElementNR{}": len(tagElems) >= 1
